@@ -424,4 +424,7 @@ pub struct Scenario {
   pub profile: String,
   pub config: Config,
   pub ops: Vec<Op>,
+  /// explorer options (tier 2)
+  #[serde(default)]
+  pub server: Option<crate::web::ServerOpts>,
 }
